@@ -52,7 +52,7 @@ KEYS = ["a b", "", "true", "12", "é", "a: b", "0x1F", "~", " a", "null", "a,b",
 
 def trees(tier):
     quick = tier == "quick"
-    leaves = LEAVES if not quick else [LEAVES[i] for i in (0, 2, 3, 4, 5, 7, 8, 9, 10)] + LEAVES[len(STR):len(STR) + 2] + LEAVES[-3:]
+    leaves = LEAVES if not quick else [LEAVES[i] for i in (0, 2, 3, 4, 5, 7, 8, 9, 10, 12, 13)] + LEAVES[len(STR):len(STR) + 2] + LEAVES[-3:]
     ts = []
     for a in leaves:
         ts += [a, ("seq", [a]), ("map", [("a", a)])]
@@ -150,17 +150,17 @@ def progslug(p):
     return re.sub(r"\s+", "", p)[:40]
 
 
-def judge(case, run):
-    """-> list of (signature, renderings that disagree with the compact-JSON run)"""
+def compare(case, run):
+    """-> (results, base ok?, {kind: [rendering indices that disagree with the compact-JSON run]})"""
     rends, prog = case
     rs = run.many(jobs_of(case))
     base = rs[0]
     if any(batch.crashed(r[0]) for r in rs):
-        return [("crash:" + progslug(prog), [rends[i][0] for i, r in enumerate(rs) if batch.crashed(r[0])])]
+        return rs, False, {"crash": [i for i, r in enumerate(rs) if batch.crashed(r[0])]}
     try:
         bv = cligen.jlines(base[1]) if base[0] == "0" or base[1] else []
     except BadJson:
-        return [("json-output-unparseable:" + progslug(prog), ["json-compact"])]
+        return rs, False, {"json-output-unparseable": [0]}
     bad = {}
     for i in range(1, len(rs)):
         r = rs[i]
@@ -177,14 +177,35 @@ def judge(case, run):
             bad.setdefault(f"value:{vclass(d[1])}->{vclass(d[2])}", []).append(i); continue
         if r[2].strip() != base[2].strip():
             bad.setdefault("error-text", []).append(i)
+    return rs, base[0] == "0", bad
+
+
+PROBES = [".", "tojson"]
+
+
+def judge(case, run):
+    """-> list of (signature, renderings that disagree with the compact-JSON run).
+    A disagreement is first attributed to the input itself: if the identity program (streamed) or `tojson` (materialised)
+    already prints different values for the renderings of this tree, every program's disagreement on that tree gets the
+    signature of that probe, so one loader-level cause yields one signature instead of one per program."""
+    rends, prog = case
+    rs, ok, bad = compare(case, run)
     out = []
-    if base[0] == "0":
+    if ok:
         out.append(("#info:base-run-succeeds", None))
-    if not bad and any(r[1] != base[1] for r in rs[1:]):
-        out.append(("#info:equal-values-different-text", None))
+    if not bad:
+        if any(r[1] != rs[0][1] for r in rs[1:]):
+            out.append(("#info:equal-values-different-text", None))
+        return out
+    for probe in PROBES:
+        _, _, pbad = compare((rends, probe), run)
+        pbad = {k: v for k, v in pbad.items() if k.startswith(("value", "status", "crash"))}
+        if pbad:
+            for kind, idx in pbad.items():
+                out.append((f"input-value:via({probe}):{kind}:" + "+".join(sorted({rends[i][3] for i in idx})), [rends[i][0] for i in idx]))
+            return out
     for kind, idx in bad.items():
-        classes = sorted({rends[i][3] for i in idx})
-        out.append((f"{kind}:{progslug(prog)}:" + "+".join(classes), [rends[i][0] for i in idx]))
+        out.append((f"{kind}:{progslug(prog)}:" + "+".join(sorted({rends[i][3] for i in idx})), [rends[i][0] for i in idx]))
     return out
 
 
